@@ -14,7 +14,8 @@ ASSUMPTIONS = [
     "K13.1: chop_tokens as a whole does not fit CBMC (12.9 GB at 400 s on a 4-word vocabulary even with format! stubbed). Decided instead: its token/byte accounting loop, cut out of the current source (between `let chop_bytes = suff.len();` and `unreachable!();`) and run for every combination of 1-4 token lengths in 1..6 and every suffix length: the returned byte count is exactly the length of the dropped tokens, they cover the suffix, and one token fewer would not. The suffix search itself is has_valid_extensions (decided above)",
     "K13.3: the probe of ParserState::forced_byte — the statements of its speculative closure after `let mut r = ParserRecognizer { state };`, cut from the current source — run against a mock recogniser with a symbolic set of viable bytes (all 2^256 sets) and every lexer hint (ForcedEOI, SomeBytes0/1/2 with distinct example bytes, Dead): it answers Some(b) exactly when b is the only viable byte. What try_push_byte itself answers is the Earley parser's and is outside",
     "K13.4: the byte accounting of TokenParser::process_prompt — its statements from the tokenisation of prompt+forced bytes to the end of the `if chop_bytes <= grm_bytes.len()` block, cut from the current source with the infoln! lines removed — in a mock TokenParser (one token per byte, tokenisation and decoding inverse, optional leading space on decode, tokenize_and_chop dropping a given number of trailing tokens as decided by K13.1): for prompt lengths 0-3, forced-byte lengths 0-3, every chop length and every content, returned prompt ++ pending text == prompt ++ forced bytes, the part moved into the prompt is marked applied, a chopped piece of the prompt becomes the grammar prefix. Sizes are concrete per instance (symbolic allocation lengths are out of CBMC's reach), contents symbolic",
-    "outside the claim: try_push_byte / the Earley rows behind the probe, force_bytes, ff_tokens, process_prompt (need the parser state)",
+    "K13.5 (E1c whole-function slices of TokenParser::{consume_token, apply_token, compute_ff_bytes_inner, ...} over a stub parser): with a pending grammar prefix of 1-2 symbolic bytes (prompt bytes handed back to the grammar by process_prompt), a committed token is matched against the prefix byte by byte, only its bytes beyond the prefix reach the parser, a token that contradicts the prefix fails the engine (InternalError) before anything reaches the parser, and the forced bytes reported next are exactly what is left of the prefix",
+    "outside the claim: try_push_byte / the Earley rows behind the probe, force_bytes, ff_tokens' tokenisation, that committed fast-forward tokens are accepted by the parser (need the parser state)",
 ]
 
 
@@ -83,10 +84,10 @@ def run():
     # the forced_byte probe (source slice, llguidance crate) runs next to the toktrie group: separate overlays and target directories
     from concurrent.futures import ThreadPoolExecutor
     with ThreadPoolExecutor(max_workers=2) as ex:
-        pspecs = pp.specs("parser", "c13", "c13_fail") + pp.specs("tokenparser", "c13", "c13_fail")
+        pspecs = pp.specs("parser", "c13", "c13_fail") + pp.specs("tokenparser", "c13", "c13_fail") + pp.specs("tpproto", "c13", "proto_fail")
         if t == "quick":
             pspecs = [x for x in pspecs if not any(k in x["name"] for k in ("p2_g2_c0", "p2_g2_c4", "p3_g1", "p0_g0"))]
-        fp = ex.submit(run_parser_groups, "C13", "c13p", ["parser", "tokenparser"], pspecs, out, 5, 1500)
+        fp = ex.submit(run_parser_groups, "C13", "c13p", ["parser", "tokenparser", "tpproto"], pspecs, out, 5, 1500, 40)
         info, fams = run_toktrie_groups("C13", "c13", {"walk", "hasext"}, out, select=sel, extra_specs=None, harness_timeout_s=900, chop=True, jobs=12)
         infop = fp.result()
     info["kani_wall_s_parser_crate"] = infop.get("kani_wall_s", 0)
